@@ -1,6 +1,6 @@
 import Driver.Loop
 import IrohModel.Common.Hex
-import IrohModel.C36.Model
+import IrohModel.C36.Compose
 open IrohModel IrohModel.C36
 
 /-
@@ -11,6 +11,15 @@ payload: ops separated by `;` (see harness/hdns/src/bin/c36.rs)
   `q <name> <type>`                                          → `noerror:<rec>,...` | `nxdomain`
 recs = `-` (none) | `!` (DNS does not parse) | `<name>/<type>/<tag>,...`; names are labels joined by `.`.
 The signature is instantiated with a toy ideal scheme: a signature *is* (signer key, message).
+
+End-to-end ops (composed model C31 ∘ C36, `IrohModel.C36.Compose`):
+  `dict <dict>`                              verdicts of the real address parsers (as in C31)
+  `pub <signer> <idkey> <addrs> <ud>`        real EndpointInfo → to_pkarr_signed_packet(signer) →
+                                             PUT under the signer's label → `204` | `400` | `enc-err:<Class>`
+  `pubx <signer> <pathkey> <zonekey> <addrs> <ud>`  hand-made packet: the same TXT strings at
+                                             `_iroh.<z32 zonekey>`, signed by signer, PUT under pathkey
+  `res <idkey> <e|r>`                        TXT query `_iroh.<z32>.<origin>` + from_txt_lookup →
+                                             `ok(id=..;a=<sorted>;ud=..)` | `err:<Class>` | `nxdomain`
 -/
 
 def msgBytes (ts : Nat) (dns : List UInt8) : List UInt8 :=
@@ -37,9 +46,74 @@ def showRecs (rs : List Rec) : String :=
 
 def origins : List Name := [parseName "irohdns.example", []]
 
+/-! helpers for the end-to-end ops (same conventions as Driver/C31.lean) -/
+
+def strOfHex (h : String) : Option C31.Str := do
+  let bs ← bytesOfHex h
+  let s ← String.fromUTF8? (ByteArray.mk bs.toArray)
+  pure s.toList
+
+def hexOfStr (s : C31.Str) : String := hexOfBytes (String.ofList s).toUTF8.toList
+
+def optStrOfHex (h : String) : Option (Option C31.Str) :=
+  if h = "~" then some none else (strOfHex h).map some
+
+structure Verdict where
+  s : C31.Str
+  url : Option C31.Str
+  ip : Option C31.Str
+  custom : Option C31.Str
+
+def parseDict (d : String) : Option (List Verdict) :=
+  if d = "~" then some [] else
+  (d.splitOn ",").mapM fun (e : String) =>
+    match e.splitOn "/" with
+    | [s, u, i, c] => do
+      pure ⟨← strOfHex s, ← optStrOfHex u, ← optStrOfHex i, ← optStrOfHex c⟩
+    | _ => none
+
+def noVerdict : C31.Str := "?no-verdict?".toList
+
+def codecsOf (d : List Verdict) (validKey : Key → Bool) : C31.Codecs where
+  parseUrl s := match d.find? (·.s = s) with | some v => v.url | none => some noVerdict
+  parseIp s := match d.find? (·.s = s) with | some v => v.ip | none => some noVerdict
+  parseCustom s := match d.find? (·.s = s) with | some v => v.custom | none => some noVerdict
+  validKey := validKey
+
+def parseAddrTok (t : String) : Option C31.Addr :=
+  match t.splitOn ":" with
+  | ["r", h] => (strOfHex h).map .relay
+  | ["i", h] => (strOfHex h).map .ip
+  | ["c", h] => (strOfHex h).map .custom
+  | _ => none
+
+def addrTok : C31.Addr → String
+  | .relay s => s!"r:{hexOfStr s}"
+  | .ip s => s!"i:{hexOfStr s}"
+  | .custom s => s!"c:{hexOfStr s}"
+
+def parseErrName : C31.ParseErr → String
+  | .unexpectedFormat => "UnexpectedFormat" | .attrFromString => "AttrFromString"
+  | .numLabels => "NumLabels" | .notAnIrohRecord => "NotAnIrohRecord" | .decodingError => "DecodingError"
+
+def renderResolved : Except E2E.ResolveErr C31.Info → String
+  | .error .noRecords => "nxdomain"
+  | .error (.parse e) => s!"err:{parseErrName e}"
+  | .ok i =>
+    let ud := match i.userData with | some u => hexOfStr u | none => "~"
+    let a := ((i.addrs.map addrTok).toArray.qsort (· < ·)).toList
+    s!"ok(id={hexOfBytes i.id};a={if a.isEmpty then "~" else ",".intercalate a};ud={ud})"
+
+def parseInfo (id : Key) (a ud : String) : Option C31.Info := do
+  let addrs ← if a = "~" then some [] else (a.splitOn ",").mapM parseAddrTok
+  let ud ← optStrOfHex ud
+  pure ⟨id, addrs, ud⟩
+
 structure St where
   keys : List Key
   store : Store
+  dict : List Verdict := []
+  seq : Nat := 0
 
 def stepOp (st : St) (op : String) : Option (St × Option String) :=
   let vp : Key → Bool := fun k => st.keys.contains k
@@ -65,6 +139,47 @@ def stepOp (st : St) (op : String) : Option (St × Option String) :=
     let body : Body := ⟨hdr, sig, ts, dns, if mode = "short" then 0 else dnslen, recs⟩
     let (s', status) := put toyVerify vp st.store label.toList body
     pure ({ st with store := s' }, some (toString status))
+  | ["dict", d] => do
+    let d ← parseDict d
+    pure ({ st with dict := d }, none)
+  | ["pub", signer, idkey, a, ud] => do
+    let sk ← st.keys[← signer.toNat?]?
+    let idk ← st.keys[← idkey.toNat?]?
+    let info ← parseInfo idk a ud
+    let ts := 1000000000000000 + st.seq
+    match C31.toSignedPacket sk info with
+    | .error .dnsError => pure ({ st with seq := st.seq + 1 }, some "enc-err:DnsError")
+    | .error .packetTooLarge => pure ({ st with seq := st.seq + 1 }, some "enc-err:PacketTooLarge")
+    | .ok p =>
+      -- toy wire: the DNS bytes are a fresh sequence number; their parse is the packet's TXT records
+      let dns := idBytes st.seq
+      let body : Body := ⟨72, sk ++ msgBytes ts dns, ts, dns, C31.dnsSize sk.length p.txts,
+        some (E2E.txtRecs p.key p.txts)⟩
+      let (s', status) := put toyVerify vp st.store (z32 sk) body
+      pure ({ st with store := s', seq := st.seq + 1 }, some (toString status))
+  | ["pubx", signer, pathkey, zonekey, a, ud] => do
+    let sk ← st.keys[← signer.toNat?]?
+    let pk ← st.keys[← pathkey.toNat?]?
+    let zk ← st.keys[← zonekey.toNat?]?
+    let info ← parseInfo zk a ud
+    let ts := 1000000000000000 + st.seq
+    let dns := idBytes st.seq
+    let txts := C31.toTxtStrings (C31.toAttrs info)
+    -- the hand-made packet is encoded without name compression: 12 + Σ (60 name + 10 + 1 + len)
+    let size := 12 + (txts.map fun t => 71 + C31.utf8Len t).sum
+    if txts.any (fun t => decide (255 < C31.utf8Len t)) then
+      pure ({ st with seq := st.seq + 1 }, some "enc-err:DnsError")
+    else if size > 1000 then
+      pure ({ st with seq := st.seq + 1 }, some "enc-err:PacketTooLarge")
+    else
+    let body : Body := ⟨72, sk ++ msgBytes ts dns, ts, dns, size, some (E2E.txtRecs zk txts)⟩
+    let (s', status) := put toyVerify vp st.store (z32 pk) body
+    pure ({ st with store := s', seq := st.seq + 1 }, some (toString status))
+  | ["res", idkey, org] => do
+    let idk ← st.keys[← idkey.toNat?]?
+    let (o, os) := if org = "e" then (parseName "irohdns.example", "irohdns.example.".toList)
+      else (([] : Name), ([] : C31.Str))
+    pure (st, some (renderResolved (E2E.resolve (codecsOf st.dict vp) origins st.store idk o os)))
   | ["get", label] =>
     match get vp st.store label.toList with
     | (200, some p) =>
@@ -88,6 +203,6 @@ def handleLine (payload : String) : String :=
       | none => "bad-input"
       | some (st', none) => go st' rest acc
       | some (st', some o) => go st' rest (o :: acc)
-  go ⟨[], Store.empty⟩ ops []
+  go { keys := [], store := Store.empty } ops []
 
 def main : IO Unit := Driver.run handleLine
